@@ -145,13 +145,14 @@ PROPS = {
     "C06": {
         "run": ["EvalProps"], "functional": False,
         "n": {"quick": 300, "thorough": 6000},
-        "level_text": "Theorem C06_retry_monitor_accepts_every_model_trace: for every script, configuration and entry point the model's trace is accepted by the executable "
+        "level_text": "Theorems: C06_retry_monitor_accepts_every_model_trace and C06_every_attempt_keeps_the_session_id_with_a_fresh_request_id: for every script, configuration and entry point the model's trace is accepted by the executable "
                       "retry monitor step6 (at most 3 attempts; a further attempt only after a retryable outcome, with fewer than 3 attempts, no poll interval in force, and exactly "
                       "one wait inside the k-th window; no waits or retries among event reports; RequestsPerCheck = attempts made with the right success flag; the loop stops only "
-                      "when it must).  Plus: the back-off window is attained by every value (randomised).  Model tied to code by trace equality; the monitor, and a session/request-id "
-                      "monitor (one session per check, pairwise distinct request ids over the whole history), run on every implementation trace; observed jitter values are recorded.",
-        "level_note": "Proved for the model, unbounded.  The session-id/request-id clause is checked on implementation traces and by trace equality, not proved for the model "
-                      "(it needs an environment-level argument about GUID draws).  ResponseTime metric count is covered by trace equality only.  Jitter is compared by window.",
+                      "when it must) and by the id monitor step6ids (inside a check every request carries the session id of the check's first request; no request id is ever "
+                      "seen twice over the whole history, pings and reports included).  Plus: the back-off window is attained by every value (randomised).  Model tied to code by trace "
+                      "equality; both monitors also run on every implementation trace; observed jitter values are recorded.",
+        "level_note": "Proved for the model, unbounded (GUIDs modelled as draws from an unbounded counter: the collision probability of real v4 UUIDs is not modelled).  "
+                      "ResponseTime metric count is covered by trace equality only.  Jitter is compared by window.",
         "diff_meaning": "The retry monitor rejects the implementation's trace (code 2), or the request/wait/metric projection differs from the model's.",
         "rule": "random scripted environments with per-attempt outcomes from {transport error, timeout, caller error, status classes, X-Retry-After, forged, unparseable, success}; "
                 "distinct = distinct implementation trace; non-trivial = at least one request",
@@ -299,9 +300,10 @@ PROPS = {
                       "step10: update-check requests and pings carry no event; after the attempts the path taken (unparseable body / plan refused / policy deferred or denied / approved install with per-app "
                       "results) fixes the reports owed, each discharged by exactly one request carrying exactly the expected events for exactly the expected apps (previous version = current version, next "
                       "version = an offered manifest version), or by one lost-event metric per event when it cannot be delivered; no other request, no retry, result only when nothing is owed; "
-                      "(2) C10_report_ok_meaning, C10_report_for_exactly_the_offered_known_apps, C10_event_versions, C10_templates.  Model tied to the code by trace equality on scripted runs; "
-                      "the monitor (and the session/request-id monitor step6ids) also runs on every implementation trace.",
-        "level_note": "Proved for the model, unbounded.  Session and request ids of reports are checked at run time only (step6ids), not proved.  Model = code is sampled on scripted runs.",
+                      "(2) C10_reports_stay_in_the_session_with_fresh_request_ids: the same for the id monitor step6ids (every request of a check carries the session id of its first request, no request id twice); "
+                      "(3) C10_report_ok_meaning, C10_report_for_exactly_the_offered_known_apps, C10_event_versions, C10_templates.  Model tied to the code by trace equality on scripted runs; "
+                      "both monitors also run on every implementation trace.",
+        "level_note": "Proved for the model, unbounded (GUIDs modelled as draws from an unbounded counter).  Model = code is sampled on scripted runs.",
         "diff_meaning": "The report monitor (or the id monitor) rejects the implementation's trace (code 2), or the request / lost-metric / installer / result projection differs from the model's.",
         "rule": "random scripted environments with update offers for any subset of 1-3 apps, plan failure, 3 policy decisions, per-app results, and every delivery outcome (ok, transport, HTTP error, forged) of each report; distinct = distinct implementation trace; non-trivial = at least one request or completed check",
         "assumptions": ["harness trait implementations follow the trait contracts", "Storage trait contract: writes cached until commit, commit atomic"],
